@@ -20,6 +20,14 @@ char *_ZNK9__gnu_cxx17__normal_iteratorIPcNSt7__cxx1112basic_stringIcSt11char_tr
 struct str_iterator *_ZN9__gnu_cxx17__normal_iteratorIPcNSt7__cxx1112basic_stringIcSt11char_traitsIcESaIcEEEEppEv(struct str_iterator *this)
 { __CPROVER_assert(IT(this) >= &g_text[0] && IT(this) < &g_text[g_text_len], "iterator incremented inside [begin, end)"); IT(this) = IT(this) + 1; return this; }
 
+/* ... and of indexed access, for a reader written with positions instead of iterators */
+unsigned long _ZNKSt7__cxx1112basic_stringIcSt11char_traitsIcESaIcEE4sizeEv(const struct std_string *this) { (void)this; return g_text_len; }
+unsigned long _ZNKSt7__cxx1112basic_stringIcSt11char_traitsIcESaIcEE6lengthEv(const struct std_string *this) { (void)this; return g_text_len; }
+char *_ZNSt7__cxx1112basic_stringIcSt11char_traitsIcESaIcEEixEm(struct std_string *this, unsigned long n)
+{ (void)this; __CPROVER_assert(n <= g_text_len, "std::string::operator[]: index within [0, size()] (undefined behaviour otherwise)"); return &g_text[n]; }
+char *_ZNSt7__cxx1112basic_stringIcSt11char_traitsIcESaIcEE2atEm(struct std_string *this, unsigned long n)
+{ (void)this; __CPROVER_assert(n < g_text_len, "model: std::string::at inside the text (it throws otherwise)"); return &g_text[n]; }
+
 /* ---- the specification, written from the property: scan from pos; CR is dropped, other bytes are copied, LF ends the chunk ---- */
 int g_spec_n; unsigned long g_spec_pos; char g_spec_out[TEXT_MAX + 2];
 static _Bool spec_chunk(unsigned long pos, int max_size)
